@@ -384,7 +384,10 @@ func c36Apply(pre *c36Tree, kind, name, target string, r c36Res) *c36Tree {
 
 // ---- known findings ------------------------------------------------------------
 
-// c36Classify recognises the two defects of the pinned tree (see RESULTS / report):
+// c36Classify gives a violation the fingerprint of one of the two defects found by
+// this check.  F-C36-1 is listed as known in KNOWN_FINDINGS.jsonl; F-C36-2 was fixed
+// in /repo (61eb443) and is listed as "fixed" only, so a violation carrying that
+// fingerprint is reported like any other (it would mean the fix regressed):
 //
 //	F-C36-1  a cpu-set change re-scales percentage-only (count 0) CPU quotas of the
 //	         group and its descendants, but the fit check values them with the
